@@ -142,7 +142,8 @@ Theorem C05_event_self_disconnect_general : forall c eio pn id data s ev args si
 Proof. exact handle_event_sd_returns. Qed.
 Print Assumptions C05_event_self_disconnect_general.
 
-(* executable form; the two premises beyond has_actions are needed (C05_sd_checker_domain_refuted) *)
+(* executable form; sd_domain c = "no handler id is shared between disconnect and another event of
+   the namespace" is a generator-domain premise and is needed (C05_sd_checker_domain_refuted) *)
 Theorem C05_sd_model_passes_checker : forall c s eio payload tbl,
   has_actions c = false -> MOK (mg s) -> sd_domain c ->
   c05_sd_step c s eio payload tbl (snd (xstep c s (EventSD eio payload tbl))) = true.
@@ -160,11 +161,7 @@ Proof. exact model_passes_c05x_all. Qed.
 Print Assumptions C05_sd_model_passes_checker_all.
 
 Theorem C05_sd_checker_domain_refuted :
-  (exists c s eio payload tbl, Inv s /\ has_actions c = false /\
-     c05_sd_step c s eio payload tbl (snd (xstep c s (EventSD eio payload tbl))) = false) /\
-  (exists c s eio payload tbl, Inv s /\ has_actions c = false /\
-     (forall ns ev args h a, reserved ev = false -> responsible c ev ns args = Some (Some h, a) ->
-                             hid_for c ev_disconnect ns <> Some h) /\
-     c05_sd_step c s eio payload tbl (snd (xstep c s (EventSD eio payload tbl))) = false).
+  exists c s eio payload tbl, Inv s /\ has_actions c = false /\
+     c05_sd_step c s eio payload tbl (snd (xstep c s (EventSD eio payload tbl))) = false.
 Proof. exact c05_sd_step_domain_refuted. Qed.
 Print Assumptions C05_sd_checker_domain_refuted.
